@@ -73,6 +73,9 @@ type Engine struct {
 	allRefs   map[string]bool
 	refDeps   map[string][]string
 	privTypes map[string]types.Type
+	compFields map[string]compFieldInfo
+	immutCache map[string]bool
+	allFuncs   map[*ssa.Function]bool
 }
 
 type BoundedCheck struct {
